@@ -4,6 +4,7 @@ import Holpy.C18.Gen
 import Holpy.C18.ProofsHyps
 import Holpy.C18.ProofsRes
 import Holpy.C18.ProofsProof
+import Holpy.C18.ProofsLA
 /-
 C18 — property theorems.  `Interp` is an arbitrary first-order interpretation (Sem.lean); a
 sequent holds when its hypotheses imply its proposition.  Everything is about the model of the
@@ -38,11 +39,11 @@ def classified : List (String × Bool) := [
   ("verit_disj_pts", false),
   ("verit_distinct_elim", false),
   ("verit_div_simplify", false),
-  ("verit_eq_congruent", false),
+  ("verit_eq_congruent", true),
   ("verit_eq_congruent_pred", false),
   ("verit_eq_reflexive", true),
   ("verit_eq_simplify", false),
-  ("verit_eq_transitive", false),
+  ("verit_eq_transitive", true),
   ("verit_equiv1", true),
   ("verit_equiv2", true),
   ("verit_equiv_neg1", true),
@@ -68,7 +69,7 @@ def classified : List (String × Bool) := [
   ("verit_ite_pos2", true),
   ("verit_ite_simplify", false),
   ("verit_la_disequality", true),
-  ("verit_la_generic", false),
+  ("verit_la_generic", true),
   ("verit_la_rw_eq", true),
   ("verit_let", false),
   ("verit_minus_simplify", false),
@@ -101,7 +102,7 @@ def classified : List (String × Bool) := [
   ("verit_subproof", false),
   ("verit_sum_simplify", false),
   ("verit_th_resolution", true),
-  ("verit_trans", false),
+  ("verit_trans", true),
   ("verit_unary_minus_simplify", false),
   ("verit_xor_neg1", true),
   ("verit_xor_neg2", true),
@@ -119,7 +120,8 @@ theorem registry_classified : classified.map (·.1) = Gen.namesSorted := by deci
 /-- tier 1 is exactly the set of rules the model implements -/
 theorem tier1_modelled : ∀ r ∈ Rule.all, (r.name, true) ∈ classified := by decide +kernel
 
-theorem tier1_count : tier1.length = Rule.all.length := by decide +kernel
+/-- … plus `verit_la_generic`, whose model (ModelLA.lean) works on parsed linear arithmetic -/
+theorem tier1_count : tier1.length = Rule.all.length + 1 ∧ ("verit_la_generic", true) ∈ classified := by decide +kernel
 
 example : ("verit_not_and", true) ∈ classified ∧ ("verit_onepoint", false) ∈ classified := by decide +kernel
 
@@ -173,6 +175,49 @@ example : evalRule .andNeg [mkAnd (.var 0) (.var 1), mkNot (.var 0), mkNot (.var
     ∧ evalRule .andNeg [mkAnd (.var 0) (mkAnd (.var 1) (.var 2)), mkNot (.var 0), mkNot (.var 1)] [] [] = .error .verit :=
   ⟨rfl, rfl⟩
 
+/-- the equality rules eq_transitive, trans, eq_congruent: an accepted chain / congruence step is
+valid whenever `equals` is equality (premise equalities first-order, both sides of a congruence with
+the same number of arguments — `wellKinded`, true of well-typed steps) -/
+theorem eq_rules_sound (I : Interp) (cl : List Tm) (ps : List Seq) (s : Seq) :
+    (eqTransitive cl = .ok s → wellKinded .eqTransitive cl [] = true → s.holds I) ∧
+    (transRule cl ps = .ok s → wellKinded .transRule cl ps = true → (∀ p ∈ ps, p.holds I) → s.holds I) ∧
+    (eqCongruent cl = .ok s → wellKinded .eqCongruent cl [] = true → s.holds I) :=
+  ⟨eqTransitive_sound I cl s, transRule_sound I cl ps s, eqCongruent_sound I cl s⟩
+
+/-- non-vacuity: `~(x = y) | ~(y = z) | x = z` is accepted, `~(x = y) | ~(w = z) | x = z` is not;
+`~(x = y) | f x = f y` is accepted, `~(x = y) | f x = f z` is not -/
+example :
+    eqTransitive [mkNot (mkEq (.var 0) (.var 1)), mkNot (mkEq (.var 1) (.var 2)), mkEq (.var 0) (.var 2)] =
+      .ok ⟨[], mkOr (mkNot (mkEq (.var 0) (.var 1))) (mkOr (mkNot (mkEq (.var 1) (.var 2))) (mkEq (.var 0) (.var 2)))⟩
+    ∧ eqTransitive [mkNot (mkEq (.var 0) (.var 1)), mkNot (mkEq (.var 3) (.var 2)), mkEq (.var 0) (.var 2)] = .error .verit
+    ∧ eqCongruent [mkNot (mkEq (.var 0) (.var 1)), mkEq (.comb (.const 100) (.var 0)) (.comb (.const 100) (.var 1))] =
+      .ok ⟨[], mkOr (mkNot (mkEq (.var 0) (.var 1))) (mkEq (.comb (.const 100) (.var 0)) (.comb (.const 100) (.var 1)))⟩
+    ∧ eqCongruent [mkNot (mkEq (.var 0) (.var 1)), mkEq (.comb (.const 100) (.var 0)) (.comb (.const 100) (.var 2))] = .error .verit :=
+  ⟨rfl, rfl, rfl, rfl⟩
+
+/-! ### la_generic / la_tautology -/
+
+/-- If `LAGenericMacro.eval` accepts a clause of (negated) `<`, `<=`, `=` literals with the given
+coefficients, the clause has a true literal under every valuation of its atoms — by rational
+numbers at sort real (the combination check), by integers at sort int (with the step
+`l > d ⟶ l >= d + 1` and the rounding of `k·(…) >= c` to the next multiple of the gcd `k`). -/
+theorem la_generic_sound :
+    (∀ (lits : List (LA.Lit ℚ)) (coeffs : List ℚ), LA.laGenericQ lits coeffs = true →
+      ∀ ρ : Nat → ℚ, ∃ l ∈ lits, LA.litTrue ρ l) ∧
+    (∀ (lits : List (LA.Lit ℤ)) (coeffs : List ℤ), LA.laGenericZ lits coeffs = true →
+      ∀ ρ : Nat → ℤ, ∃ l ∈ lits, LA.litTrue ρ l) :=
+  ⟨LA.laGenericQ_sound, LA.laGenericZ_sound⟩
+
+/-- non-vacuity: `~(-1 <= 2x) | ~(1 <= -2x)` is accepted over the integers (only by rounding: the real
+relaxation is satisfiable), `~(-3 <= 2x) | ~(1 <= -2x)` (false at x = -1) is rejected; over the
+reals `~(x <= 0) | ~(1 <= x)` is accepted with coefficients 1, 1 and rejected with 1, 0 -/
+example :
+    LA.laGenericZ [⟨true, .le, .num (-1), .mul 2 (.atom 0)⟩, ⟨true, .le, .num 1, .mul (-2) (.atom 0)⟩] [1, 1] = true
+    ∧ LA.laGenericZ [⟨true, .le, .num (-3), .mul 2 (.atom 0)⟩, ⟨true, .le, .num 1, .mul (-2) (.atom 0)⟩] [1, 1] = false
+    ∧ LA.laGenericQ [⟨true, .le, .atom 0, .num 0⟩, ⟨true, .le, .num 1, .atom 0⟩] [1, 1] = true
+    ∧ LA.laGenericQ [⟨true, .le, .atom 0, .num 0⟩, ⟨true, .le, .num 1, .atom 0⟩] [1, 0] = false := by
+  refine ⟨by decide, by decide, by decide +kernel, by decide +kernel⟩
+
 /-! ### resolution -/
 
 /-- `verit_th_resolution` (rules `resolution` and `th_resolution`): whatever order `resolve_order`
@@ -189,9 +234,15 @@ example : thResolution [] [2, 1, 1] [⟨[.var 7], mkOr (.var 0) (.var 1)⟩, ⟨
 
 /-! ### whole proofs -/
 
-/-- A proof made of `assume` commands and tier-1 steps that evaluation mode accepts and that ends
-in the empty clause (`false`) shows that the assumed formulas are jointly unsatisfiable. -/
-theorem empty_clause_unsat (I : Interp) (hI : I.LeOrder) (cmds : List Cmd) (res : List Seq) (s : Seq)
+/-- PARTIAL.  A proof that evaluation mode accepts and that ends in the empty clause (`false`) shows
+that the assumed formulas are jointly unsatisfiable — proved for proofs made of `assume` commands
+and steps of the rules in `Rule` (the propositional clause rules, resolution, eq_reflexive,
+la_disequality, la_rw_eq) whose steps are `wellKinded` (true of well-typed steps; `runProof` tests
+it, the Python does not — `runProof_agrees_raw` relates it to the untested run that the driver
+compares with `proof_rec.validate`).  Missing: steps of la_generic (its theorem `la_generic_sound`
+is about the parsed arithmetic, not the term model), of the equality-chain / congruence rules and
+of every tier-2 rule; subproofs / anchors / contexts. -/
+theorem empty_clause_unsat_partial (I : Interp) (hI : I.LeOrder) (cmds : List Cmd) (res : List Seq) (s : Seq)
     (h : runProof cmds [] = .ok res) (hlast : res.getLast? = some s) (hs : s.prop = ff) :
     ¬ ∀ t ∈ assumptions cmds, tr I t := by
   intro hall
@@ -200,6 +251,11 @@ theorem empty_clause_unsat (I : Interp) (hI : I.LeOrder) (cmds : List Cmd) (res 
   have := h1 (fun x hx => hall x (h2 x hx))
   rw [hs] at this
   exact tr_ff I this
+
+/-- what `runProof` accepts, the run without the `wellKinded` test (the one compared with the
+implementation) accepts with the same result -/
+theorem runProof_agrees_raw (cmds : List Cmd) (res : List Seq) (h : runProof cmds [] = .ok res) :
+    runProofRaw cmds [] = .ok res := runProof_raw cmds [] res h
 
 /-- non-vacuity: assume `a --> b`, `a`, `~b`; `implies`; `resolution` to the empty clause -/
 example : (runProof [.assume (mkImp (.var 0) (.var 1)), .assume (.var 0), .assume (mkNot (.var 1)),
